@@ -278,3 +278,40 @@ func (fg *FlowGraph) regionFrom(from ast.Node, until func(ast.Node) bool) []ast.
 	walk(b0, i0+1)
 	return out
 }
+
+// prunedWalk visits the nodes of the flow graph g reachable from its entry when the branch
+// conditions that atom decides (three-valued) are followed only in the decided direction.
+// visit returns true to stop the walk along the current path.
+func prunedWalk(g *cfg.CFG, atom func(ast.Expr) int, visit func(n ast.Node) bool) {
+	seen := map[*cfg.Block]bool{}
+	var walk func(b *cfg.Block)
+	walk = func(b *cfg.Block) {
+		if seen[b] {
+			return
+		}
+		seen[b] = true
+		for _, n := range b.Nodes {
+			if visit(n) {
+				return
+			}
+		}
+		if len(b.Succs) == 2 && len(b.Nodes) > 0 {
+			if cond, ok := b.Nodes[len(b.Nodes)-1].(ast.Expr); ok {
+				switch evalCond(cond, atom) {
+				case triTrue:
+					walk(b.Succs[0])
+					return
+				case triFalse:
+					walk(b.Succs[1])
+					return
+				}
+			}
+		}
+		for _, s := range b.Succs {
+			walk(s)
+		}
+	}
+	if len(g.Blocks) > 0 {
+		walk(g.Blocks[0])
+	}
+}
